@@ -252,7 +252,6 @@ func sortedSet.updatePosition
   -- left loop: the record moves towards the front; the ones it passed moved one place back
   loop 1 invariant inv(s) && 0 <= element.index && element.index <= old(element.index) && s.sortedElements[element.index] == element && s.sortedElements == old(s.sortedElements)
   loop 1 invariant moved <==> element.index != old(element.index)
-  loop 1 invariant element.index > 0 ==> s.sortedElements[element.index - 1] != nil && s.sortedElements[element.index - 1].index == element.index - 1     -- (instance of the record invariant, as a hint)
   loop 1 invariant forall k Int :: 0 <= k && k < element.index ==> s.sortedElements[k] == old(s.sortedElements[k])
   loop 1 invariant forall k Int :: old(element.index) < k && k < len(s.sortedElements) ==> s.sortedElements[k] == old(s.sortedElements[k])
   loop 1 invariant forall k Int :: element.index < k && k <= old(element.index) ==> s.sortedElements[k] == old(s.sortedElements[k - 1])
@@ -261,7 +260,6 @@ func sortedSet.updatePosition
   -- right loop (only if it did not move left): the record moves towards the back
   loop 2 invariant inv(s) && old(element.index) <= element.index && element.index < len(s.sortedElements) && s.sortedElements[element.index] == element && s.sortedElements == old(s.sortedElements)
   loop 2 invariant moved <==> element.index != old(element.index)
-  loop 2 invariant element.index < len(s.sortedElements) - 1 ==> s.sortedElements[element.index + 1] != nil && s.sortedElements[element.index + 1].index == element.index + 1     -- (instance of the record invariant, as a hint)
   loop 2 invariant forall k Int :: 0 <= k && k < old(element.index) ==> s.sortedElements[k] == old(s.sortedElements[k])
   loop 2 invariant forall k Int :: element.index < k && k < len(s.sortedElements) ==> s.sortedElements[k] == old(s.sortedElements[k])
   loop 2 invariant forall k Int :: old(element.index) <= k && k < element.index ==> s.sortedElements[k] == old(s.sortedElements[k + 1])
